@@ -840,7 +840,7 @@ func inputMouse(tw *trace.Writer, rng *rand.Rand, names []string, n int, st map[
 		}
 		// a live screen: press, then the application touches the mouse modes (or suspends and resumes) before the
 		// release, then drag motion and the release - whether a button is held depends on the reports alone
-		for variant := 0; variant < 4; variant++ {
+		for variant := 0; variant < 5; variant++ {
 			if err := liveMouse(tw, name, w, h, variant); err != nil {
 				return err
 			}
@@ -913,6 +913,12 @@ func liveMouse(tw *trace.Writer, name string, w, h, variant int) error {
 	case 2:
 		s.Suspend()
 		s.Resume()
+	case 4:
+		// the application turns the mouse off while the button is down: the release that is already on its way
+		// is still reported, so the press gets its buttonless event
+		s.DisableMouse()
+		report(0, 6, 5, 'm')
+		return nil
 	default: // nothing in between
 	}
 	report(32, 6, 5, 'M')
